@@ -9,6 +9,11 @@ def run(ctx, res):
         res.violate("C09:anchor-missing:size-traits", "could not identify the three size traits by their methods", None, {}, "anchors")
         return
     check_heap_impls(ctx, res, alg, want=("BUF", "LEN", "MEM"), prop="C09")
+    # a container sums its elements through the bulk helpers: an override that disagrees with the element-wise heap_size of a buffer
+    # owner (e.g. String summing lengths) loses the reserved capacity of nested values
+    from .C08 import check_overrides, check_defaults
+    check_defaults(ctx, res, alg)
+    check_overrides(ctx, res, alg)
     res.trusted.append("std documentation: allocation size of String/OsString/PathBuf/Vec/BinaryHeap = capacity() [x size_of::<T>()], "
                        "HashMap/HashSet >= capacity() x size_of entry, Box/CString exact fit")
     res.assumptions.append("allocator rounding and hash-table control bytes are not modelled (HashMap/HashSet are lower bounds by the property's wording)")
